@@ -470,3 +470,58 @@ func H06d_twin() {
 		vAssert(false, "H06d_twin.reach: reachable")
 	}
 }
+
+// H06e: a rejected transaction leaves no trace - also not in what later admissions are judged against. After a
+// valid root, a transaction X is offered that passes every verifier but is refused in the write phase (its payload
+// does not hash to the declared hash, or it is a second root); then a transaction Y that names X as its only
+// previous transaction, with the clock that would fit (X's clock + 1). Y must be refused (its prev is absent),
+// nothing of X or Y is stored, and storage and digests are those of the one-transaction DAG - on the same state
+// object (same verifier instances) that judged X.
+func H06e() {
+	kv := newHKV()
+	ctx := context.Background()
+	leafSize := uint32(2)
+	s := hNewState(kv, leafSize, func(Transaction) bool { return true })
+	p := []byte{7}
+	root := hNewTx(vRef(1), 0, hash.SHA256Sum(p), nil)
+	vAssert(s.Add(ctx, root, p) == nil, "H06e.root_admitted: valid root refused")
+	var x *transaction
+	var xPayload []byte
+	if vBool() {
+		vCover("rejected-payload-mismatch")
+		x = hNewTx(vRef(1), 1, hash.SHA256Sum([]byte{9}), []hash.SHA256Hash{root.ref})
+		xPayload = []byte{8}
+	} else {
+		vCover("rejected-second-root")
+		x = hNewTx(vRef(1), 0, hash.SHA256Sum([]byte{9}), nil)
+		xPayload = []byte{9}
+	}
+	vAssume(x.ref != root.ref)
+	before := kv.snapshot()
+	errX := s.Add(ctx, x, xPayload)
+	presentX, _ := s.IsPresent(ctx, x.ref)
+	vAssert(errX != nil && !presentX, "H06e.x_refused: a transaction with a wrong payload / a second root was admitted")
+	vAssert(hKVSameState(before, kv.snapshot()), "H06e.reject_leaves_no_trace: refused transaction changed storage")
+	y := hNewTx(vRef(1), x.lamportClock+1, hash.SHA256Sum([]byte{5}), []hash.SHA256Hash{x.ref})
+	vAssume(y.ref != root.ref && y.ref != x.ref)
+	errY := s.Add(ctx, y, nil)
+	presentY, _ := s.IsPresent(ctx, y.ref)
+	vAssert(errY != nil && !presentY, "H06e.child_of_rejected_refused: a transaction whose previous transaction was refused (and is absent) entered the DAG")
+	vAssert(hKVSameState(before, kv.snapshot()), "H06e.child_leaves_no_trace: refused child of a refused transaction changed storage")
+	hCheckDerived("H06e.after", s, kv, []*transaction{root}, leafSize)
+	vCover("done")
+}
+
+func H06e_twin() {
+	kv := newHKV()
+	ctx := context.Background()
+	s := hNewState(kv, 2, func(Transaction) bool { return true })
+	p := []byte{7}
+	root := hNewTx(vRef(1), 0, hash.SHA256Sum(p), nil)
+	if s.Add(ctx, root, p) == nil {
+		y := hNewTx(vRef(1), 1, hash.SHA256Sum([]byte{5}), []hash.SHA256Hash{root.ref})
+		if y.ref != root.ref && s.Add(ctx, y, nil) == nil {
+			vAssert(false, "H06e_twin.reach: reachable")
+		}
+	}
+}
